@@ -100,7 +100,11 @@ def gen_history(rng: random.Random, disciplined: bool, nmax: int = 9, nops: int 
             info[n]["frozen"] = True
         elif r < 0.90:
             n = rng.choice(us)
-            ops.append(["call", rng.choice([0, 0, 0, 1, 2, 3, 3]), n, rng.randint(-2, 4)])
+            # f3 calls itself on the children THROUGH the decorator; the model treats every method as a
+            # function of the node's view, which is exact for such nested calls only while the table is sound
+            # (what the theorem proves for disciplined histories): it is not issued in undisciplined ones
+            fids = [0, 0, 0, 1, 2, 3, 3] if disciplined else [0, 0, 0, 1, 2]
+            ops.append(["call", rng.choice(fids), n, rng.randint(-2, 4)])
         elif r < 0.98:
             n = rng.choice(us)
             ops.append(["drop", n])
@@ -313,6 +317,7 @@ def run_process_level(ck: Check, sets: List[Tuple[str, Dict[str, str], str]], nv
                          targets=targets_for(files), seeds=[rng.randrange(1, 2 ** 32)],
                          variants=rng.sample(PATH_VARIANTS, k=min(nvariants, len(PATH_VARIANTS)))))
     res = run_workers("run_det.py", jobs, chunk=1, timeout=900)
+    _t(ck, "fresh_processes")
     stats = dict(schemas=len(sets), compilations=0, outputs=0, ok_targets=0, failing_targets=0, inproc_steps=0,
                  audit_nodes=0, audit_compared=0, freezes=0)
     distinct = set()
@@ -420,13 +425,31 @@ def load_corpus() -> List[Dict[str, Any]]:
     return out
 
 
+def _t(ck: Check, what: str) -> None:
+    import sys
+    import time
+    ck.coverage.setdefault("timing_s", {})[what] = round(time.time() - ck.t0, 1)
+    if os.environ.get("VERIF_VERBOSE"):
+        print(f"[C18] {what}: {time.time() - ck.t0:.1f}s", file=sys.stderr)
+
+
 def run(ck: Check) -> None:
     ck.try_prove("C18.v", model_vo=("theories/MemoCase.vo",))
+    _t(ck, "proved")
     ck.assumptions = list(ASSUME)
     cov = ck.coverage
     if not ck.model_ok:
         raise Broken("the executable model (theories/MemoCase.vo) does not build", "")
-    methods = [list(m) for m in translate_memo.tables().get("cached_methods", [])]
+    try:
+        methods = [list(m) for m in translate_memo.tables().get("cached_methods", [])]
+    except Broken:
+        # the source no longer translates (already recorded by try_prove): audit with the table of the last
+        # accepted translation so that the search for a concrete failing input still runs
+        import re
+        ref = open(os.path.join(vlib.COQ, "ref", "GenMemo.v")).read()
+        body = ref[ref.index("Definition cached_methods"):]
+        body = body[:body.index("].")]
+        methods = [list(m) for m in re.findall(r'\("(\w+)", "(\w+)", "(\w+)", \[', body)]
 
     corpus = load_corpus()
     if ck.replay_file:
@@ -447,29 +470,33 @@ def run(ck: Check) -> None:
     evaluations = 0
     if not ck.replay_file:
         evaluations += run_tables(ck)
-        nh = ck.n(240, 4000)
+        nh = ck.n(200, 4000)
         for i in range(nh):
             rng = random.Random(f"C18:{ck.seed}:h:{i}")
             hist_items.append((f"gen#{i}", gen_history(rng, disciplined=(i % 5 != 0)), None))
+    _t(ck, "tables")
     agg = run_histories(ck, hist_items) if hist_items else {}
+    _t(ck, "histories")
     evaluations += agg.get("ops", 0)
 
-    if not ck.replay_file:
+    if not ck.replay_file and os.environ.get("C18_ONLY") != "memo":
         repo_sets = repo_schema_sets()
         rng = random.Random(f"C18:{ck.seed}:repo")
         if ck.quick:
-            must = [s for s in repo_sets if s[0].startswith("example/") or "encoding-cases" in s[0]]
-            rest = [s for s in repo_sets if s not in must]
-            repo_sets = must + rng.sample(rest, k=min(8, len(rest)))
+            must = [s for s in repo_sets if s[0].startswith("example/")]
+            enc = [s for s in repo_sets if "encoding-cases" in s[0]]
+            rest = [s for s in repo_sets if s not in must and s not in enc]
+            repo_sets = must + rng.sample(enc, k=min(6, len(enc))) + rng.sample(rest, k=min(5, len(rest)))
         sets.extend(repo_sets)
-        for i in range(ck.n(14, 160)):
+        for i in range(ck.n(10, 160)):
             r2 = random.Random(f"C18:{ck.seed}:s:{i}")
             params = sg.Params(allow_ext=False) if i % 3 == 0 else (
                 sg.Params(max_depth=4, max_fields=8) if i % 3 == 1 else sg.Params())
             s = sg.Gen(r2, params).schema()
             sets.append((f"gen#{i}", s.texts, s.main))
-    stats = run_process_level(ck, sets, nvariants=ck.n(2, 6), group_size=4, methods=methods) if sets else {}
+    stats = run_process_level(ck, sets, nvariants=ck.n(1, 6), group_size=4, methods=methods) if sets else {}
     evaluations += stats.get("compilations", 0) + stats.get("inproc_steps", 0) + stats.get("audit_compared", 0)
+    _t(ck, "process_level")
 
     cov["evaluations"] = evaluations
     cov["distinct_nontrivial"] = agg.get("distinct_nontrivial", 0) + stats.get("distinct_outputs", 0)
